@@ -178,6 +178,7 @@ type c16Adapter struct {
 	// overlap scenarios: Close announces itself on closeEntered and waits for closeGate before it returns
 	closeEntered chan struct{}
 	closeGate    chan struct{}
+	addr         string // "" = the shared address
 }
 
 type c16Harness struct {
@@ -221,12 +222,17 @@ func (a *c16Adapter) Close() error {
 	return nil
 }
 func (a *c16Adapter) Channel() chan cla.ConvergenceStatus { return a.ch }
-func (a *c16Adapter) Address() string                     { return "mock://shared-address" }
-func (a *c16Adapter) IsPermanent() bool                   { return a.perm }
-func (a *c16Adapter) GetEndpointID() bpv7.EndpointID      { return gen.MustEID("dtn://me/") }
-func (a *c16Adapter) GetPeerEndpointID() bpv7.EndpointID  { return gen.MustEID("dtn://peer/") }
-func (a *c16Adapter) Send(bpv7.Bundle) error              { return nil }
-func (a *c16Adapter) String() string                      { return fmt.Sprintf("mock-%c", 'A'+a.inst) }
+func (a *c16Adapter) Address() string {
+	if a.addr != "" {
+		return a.addr
+	}
+	return "mock://shared-address"
+}
+func (a *c16Adapter) IsPermanent() bool                  { return a.perm }
+func (a *c16Adapter) GetEndpointID() bpv7.EndpointID     { return gen.MustEID("dtn://me/") }
+func (a *c16Adapter) GetPeerEndpointID() bpv7.EndpointID { return gen.MustEID("dtn://peer/") }
+func (a *c16Adapter) Send(bpv7.Bundle) error             { return nil }
+func (a *c16Adapter) String() string                     { return fmt.Sprintf("mock-%c", 'A'+a.inst) }
 
 type c16Task struct {
 	Cfg    c16Config  `json:"cfg"`
@@ -590,7 +596,7 @@ func replayC16(kind string, c json.RawMessage) (string, bool) {
 // (Two API calls for one adapter running concurrently in two caller goroutines - e.g. Restart while Unregister is
 // inside the adapter's Close - are outside the property's quantifier, which ranges over sequences; the retry tick
 // and the adapters' status messages are asynchronous to the caller by nature and are what is overlapped here.)
-var c16Overlaps = []string{"tick-during-close", "status-burst", "status-burst-then-close"}
+var c16Overlaps = []string{"tick-during-close", "status-burst", "status-burst-then-close", "register-during-manager-close"}
 
 // c16Overlap runs one overlap scenario on a fresh real Manager. The adapters are the manager's environment: the
 // harness decides when a call into one returns, which is how another event is placed inside that call.
@@ -698,6 +704,42 @@ func c16Overlap(t c16Task) (res c16Result) {
 		if !withWatchdog(func() { vtime.Advance(10 * time.Second) }) || !flush() {
 			return fail("C16/deadlock:tick", "retry tick after the overlap did not complete")
 		}
+	case "register-during-manager-close":
+		// Manager.Close is inside adapter A's Close when another adapter is registered (listeners register the
+		// adapters of incoming connections from goroutines of their own): whatever is started must be stopped
+		gate, entered := make(chan struct{}), make(chan struct{})
+		h.mu.Lock()
+		a.closeGate, a.closeEntered = gate, entered
+		h.mu.Unlock()
+		late := &c16Adapter{inst: 1, perm: t.Cfg.Perm, ch: make(chan cla.ConvergenceStatus), h: h, addr: "mock://late-adapter"}
+		closeDone := make(chan struct{})
+		go func() { _ = mgr.Close(); close(closeDone) }()
+		if !withWatchdog(func() { <-entered }) {
+			return fail("C16/deadlock:close", "Manager.Close never called the adapter's Close")
+		}
+		regDone := make(chan struct{})
+		go func() { mgr.Register(late); close(regDone) }()
+		time.Sleep(30 * time.Millisecond) // scheduling aid only
+		close(gate)
+		if !withWatchdog(func() { <-closeDone }) {
+			return fail("C16/deadlock:final-close", "Manager.Close did not return")
+		}
+		withWatchdog(func() { <-regDone })
+		time.Sleep(10 * time.Millisecond)
+		h.mu.Lock()
+		bad, runA, runLate := h.bad, a.started, late.started
+		h.mu.Unlock()
+		if bad != "" {
+			return fail("C16/adapter-protocol", bad)
+		}
+		if runA || runLate {
+			s, c := calls()
+			return fail("C16/close-leaves-adapter-running", fmt.Sprintf("an adapter registered while Manager.Close was in progress is still running after Close returned (A running=%v, late adapter running=%v; %d starts, %d closes)", runA, runLate, s, c))
+		}
+		s, c := calls()
+		res.Obs = fmt.Sprintf("%s: starts=%d closes=%d", t.Overlap, s, c)
+		res.State = t.Overlap
+		return
 	case "status-burst", "status-burst-then-close":
 		// two status messages of one adapter back to back: its peer disappeared (the manager restarts the adapter)
 		// and a further message right behind it
